@@ -18,12 +18,15 @@ from .. import core
 DOC = """% leading comment
 @string{jan1 = "January"}
 @string{jan1 = "dup"}
+@string{jf = jfoo}
+@string{jfoo = "Journal of Foo"}
 @preamble{"\\\\x"}
 @comment{explicit}
 @article{k1,
   author = {Donald E. Knuth and Leslie Lamport and {de la Vall{\\'e}e Poussin}, Ch. L. X. J.},
   title = {The {\\TeX}book & more, 100\\% $x^2$},
   month = jan,
+  journal = jf,
   year = 1984,
   url = {http://example.org/a_b}
 }
